@@ -25,7 +25,7 @@ ASSUMPTIONS = [
     'controller_ParaDiag_nonMPI (fixed step, no restarts): inside a block the start value equals the predecessor\'s end value up to 1e3*restol only (all-at-once solve), exactly across blocks',
 ]
 PROBES = ['restart_at_later_slot', 'restart_near_Tend', 'same_step_restarted_twice', 'partial_last_block', 'step_size_changed',
-          'two_steps_same_end_time', 'run_aborted_ConvergenceError', 'fixed_step_run', 'continuation_leg_on_same_controller', 'forced_stop_on_later_step', 'paradiag_run']
+          'two_steps_same_end_time', 'run_aborted_ConvergenceError', 'fixed_step_run', 'continuation_leg_on_same_controller', 'forced_stop_on_later_step', 'paradiag_run', 'steps_finish_in_different_iterations']
 
 
 def plan(tier):
@@ -51,6 +51,14 @@ def execute(sc):
         res.probe('continuation_leg_on_same_controller')
     if sc['config'].get('controller_class') == 'ParaDiag':
         res.probe('paradiag_run')
+    for leg in tr.legs:
+        byb = {}
+        for a in leg.ctx.attempts:
+            if a.get('post'):
+                byb.setdefault(a['block'], set()).add(a['iter'])
+        if any(len(v) > 1 for v in byb.values()):
+            res.probe('steps_finish_in_different_iterations')
+            break
     res['nontrivial'] = len(tr.ctx.blocks) >= 3 or any(k in res['faults'] for k in ('restart_request', 'dt_proposal'))
     return res.finish(log)
 
